@@ -469,7 +469,7 @@ def q_r6_serialize(p: Project, rep: Report):
             return False
         return None
 
-    verdicts = {k: True for k in ("unclosed-only-below-200", "guard-on-effective-version", "unclosed-only-when-asked", "header-version", "header-oldfileuid", "header-newfileuid", "tree-of-given-request", "indent-only-when-asked")}
+    verdicts = {k: True for k in ("unclosed-only-below-200", "guard-on-effective-version", "unclosed-only-when-asked", "header-version", "header-oldfileuid", "header-newfileuid", "tree-of-given-request", "indent-only-when-asked", "closed-writer-no-short-empty-tags")}
     details = {}
     undec = set()
     where = {}
@@ -558,6 +558,22 @@ def q_r6_serialize(p: Project, rep: Report):
                 verdicts["unclosed-only-below-200"] = False
         elif w != "tostring":
             raise AnalysisError(f"Q-R6: serialize() body producer {text(body.func)} not known")
+        else:
+            # the closed writer must not abbreviate an empty aggregate to <X />: the reader's tag pattern takes the
+            # blank and the slash as part of the name
+            where.setdefault("closed", body)
+            kw = {k.arg: k.value for k in body.keywords if k.arg}
+            meth = kw.get("method")
+            see = kw.get("short_empty_elements")
+            if isinstance(meth, ast.Constant) and meth.value == "html":
+                pass
+            elif isinstance(see, ast.Constant) and see.value is False:
+                pass
+            elif meth is None or isinstance(meth, ast.Constant):
+                verdicts["closed-writer-no-short-empty-tags"] = False
+                details["closed-writer-no-short-empty-tags"] = f"{text(body)[:90]} writes an aggregate without children as <X />, which the parser does not read as an empty aggregate (its tag pattern takes ' /' as part of the name): such a document no longer parses"
+            else:
+                undec.add(f"ET.tostring method {text(meth)} not constant")
         # ---- indent
         for nid in q.nodes:
             n = cfg.nodes[nid]
@@ -588,6 +604,10 @@ def q_r6_serialize(p: Project, rep: Report):
             w_ = where.get("unclosed", fn)
         elif k.startswith("header"):
             w_ = where.get("header", fn)
+        elif k.startswith("closed"):
+            if "closed" not in where:
+                continue
+            w_ = where["closed"]
         else:
             w_ = fn
         if ok and undec and k in ("header-version", "guard-on-effective-version", "unclosed-only-below-200", "unclosed-only-when-asked"):
